@@ -391,6 +391,45 @@ def run(chk):
                 chk.case(("no-length", name, ph), True); chk.count("nolength:%s:%dxx" % (name, r.status // 100 if r.status > 0 else 0))
                 after("%s without Content-Length and Transfer-Encoding (payload hash %s)" % (name, ph or "of the empty body"), method, r, time.time() - t0,
                       {"method": method, "path": path, "query": query, "payload_hash": ph, "content_length_header": "absent"})
+        # ---- a bucket the gateway did not create (a directory that was already in its root: no owner, no ACL recorded), reached with
+        # header-signed, presigned and unsigned requests by root and by a user
+        os.makedirs(os.path.join(site.root, "prebkt", "sub"), exist_ok=True)
+        open(os.path.join(site.root, "prebkt", "file"), "wb").write(b"pre-existing")
+        import urllib.request as _ur
+        cl.req("PATCH", "/create-user", body=b"<Account><Access>alice20</Access><Secret>alice20-secret</Secret><Role>user</Role><UserID>0</UserID><GroupID>0</GroupID></Account>")
+        for who, secret in (("root", "rootsecret"), ("alice20", "alice20-secret"), ("root", "wrong")):
+            c3 = s3c.Client(g.port, who, secret)
+            for method, path, q in (("GET", "/prebkt", {}), ("GET", "/prebkt", {"list-type": "2"}), ("GET", "/prebkt/file", {}), ("HEAD", "/prebkt/file", {}), ("PUT", "/prebkt/new-%s" % who, {}),
+                                    ("GET", "/prebkt", {"acl": ""}), ("GET", "/prebkt", {"policy": ""}), ("DELETE", "/prebkt/new-%s" % who, {}), ("GET", "/prebkt/sub/", {})):
+                for style in ("header", "presigned"):
+                    t0 = time.time()
+                    try:
+                        if style == "header":
+                            r = c3.req(method, path, query=q, body=b"x" if method == "PUT" else b"", timeout=15)
+                        else:
+                            url, hd_ = c3.presign(method, path, query=q, expires=120)
+                            r = c3.raw(method, url, {"Host": hd_["host"]}, b"x" if method == "PUT" else b"", timeout=15)
+                    except Exception as e:
+                        chk.count("client-refused"); continue
+                    chk.case(("unowned-bucket", who, secret == "wrong", method, path, tuple(q), style), True); chk.count("unowned-bucket:%s:%dxx" % (style, r.status // 100 if r.status > 0 else 0))
+                    after("%s %s%s (%s, %s%s) on a bucket without a recorded owner" % (method, path, "?" + "&".join(q) if q else "", style, who, " with a wrong secret" if secret == "wrong" else ""), method, r, time.time() - t0,
+                          {"method": method, "path": path, "query": q, "style": style, "caller": who})
+        # ---- aws-chunked uploads whose chunk headers declare sizes at and beyond the integer boundaries (valid request signature; the
+        # size is parsed before the chunk's own signature can be looked at)
+        for ptype in ("STREAMING-AWS4-HMAC-SHA256-PAYLOAD", "STREAMING-UNSIGNED-PAYLOAD-TRAILER", "STREAMING-AWS4-HMAC-SHA256-PAYLOAD-TRAILER"):
+            for sz in ("ffffffffffffffff", "8000000000000000", "7fffffffffffffff", "ffffffff", "80000000", "100000000", "-1", "-8000000000000000", "0x10", "1" + "0" * 40, "", " 4", "4 ", "+4", "00000000000000000004"):
+                for target, q in (("/bk1/chunk-size", {}), ("/bk1/mp", {"partNumber": "3", "uploadId": uid})):
+                    hd = {"x-amz-decoded-content-length": "4", "content-encoding": "aws-chunked"}
+                    if "TRAILER" in ptype: hd["x-amz-trailer"] = "x-amz-checksum-crc32"
+                    def mk(sig, k, amzdate, d8, region, sz=sz, ptype=ptype):
+                        if "UNSIGNED" in ptype:
+                            return ("%s\r\n" % sz).encode() + b"data\r\n0\r\nx-amz-checksum-crc32:AAAAAA==\r\n\r\n"
+                        return ("%s;chunk-signature=%s\r\n" % (sz, "0" * 64)).encode() + b"data\r\n" + ("0;chunk-signature=%s\r\n\r\n" % ("0" * 64)).encode()
+                    t0 = time.time()
+                    try: r, _ = cl.req_streaming("PUT", target, mk, query=q, headers=hd, payload_type=ptype, timeout=15)
+                    except Exception: chk.count("client-refused"); continue
+                    chk.case(("chunk-size", ptype, sz, bool(q)), True); chk.count("chunksize:%dxx" % (r.status // 100 if r.status > 0 else 0))
+                    after("aws-chunked %s with a chunk header declaring the size %r (%s)" % ("UploadPart" if q else "PutObject", sz, ptype), "PUT", r, time.time() - t0, {"payload_type": ptype, "declared_chunk_size": sz, "path": target})
         # ---- the same kinds of requests with the access log switched on (the logger runs on every response, also on those refused
         # before authentication)
         g_main, cl_main, log_main, seen_main = g, cl, logpath, panics_seen
